@@ -1153,11 +1153,12 @@ class CSSMatch(_DocumentNav):
                         check = False
                         has_name = False
                         for k, v in self.iter_attributes(child):
-                            if util.lower(k) == 'type' and util.lower(v) == 'radio':
+                            attr = util.lower(k) if not self.is_xml else k
+                            if attr == 'type' and util.lower(v) == 'radio':
                                 is_radio = True
-                            elif util.lower(k) == 'name' and v == name:
+                            elif attr == 'name' and v == name:
                                 has_name = True
-                            elif util.lower(k) == 'checked':
+                            elif attr == 'checked':
                                 check = True
                             if is_radio and check and has_name and get_parent_form(child) is form:
                                 checked = True
